@@ -41,6 +41,7 @@ def run(ctx, R):
     c10.blind_structure_reads(F, R, "C20")   # a Str cell is a list cell only if its functor is '.'/2
     _c20_extra(F, R)                          # two strings order like the lists they denote: whole code points are compared
     pstr_positions_advance_by_bytes(F, R)
+    tail_index_from_the_terminator(F, R)
     R.rule("RF10/RF1: every tag dispatch that names Lis names PStrLoc (and conversely) or is a listed exception")
     n_both = 0
     n_one = 0
@@ -195,3 +196,34 @@ def pstr_positions_advance_by_bytes(F, R):
                      "a multi-byte character or short of the position (skipping the first N elements of a string with non-ASCII text resumes at the wrong place)"
                      % (short(fn), other, sorted(bytes_locals)), F.where(fn))
     R.floor("locations computed inside a packed string by the counting helpers", n, 3)
+
+
+def tail_index_from_the_terminator(F, R):
+    """The tail cell of a packed string is found from the location of its terminating zero byte (Heap::pstr_tail_idx). A
+    caller standing at a character gets there by adding the bytes it has walked over; handing the function the location of
+    a character itself lands on the padding of the same cell for most lengths (arg(2, LastCons, T) then returns a zeroed
+    cell). Every argument of pstr_tail_idx is a sum `location + bytes` (directly or through one local)."""
+    tgt = [p for p in F.items if p.endswith("heap::Heap::pstr_tail_idx")]
+    if len(tgt) != 1:
+        raise AnchorLost("Heap::pstr_tail_idx (%d)" % len(tgt))
+    n = 0
+    for p, cs in sorted(F.calls.items()):
+        if not any((c.get("resolved") or c.get("callee")) == tgt[0] for c in cs):
+            continue
+        top = re.sub(r"(::\{closure#\d+\})+$", "", p)
+        if top not in F.items or not F.items[top]["file"].startswith("src/") or p != top:
+            continue
+        body = F.hir(top)["body"]
+        lets = {x["pat"]["name"]: x["init"] for x in walk(body) if x["k"] == "Let" and x["pat"]["k"] == "PBind" and "init" in x}
+        k = 0
+        for x in walk(body):
+            if x["k"] == "Call" and (x.get("resolved") or x.get("callee")) == tgt[0] and x.get("args"):
+                a = x["args"][0]
+                if a["k"] == "Path" and res_name(a) in lets:
+                    a = lets[res_name(a)]
+                n += 1
+                R.ob("C20:pstr-tail:found-from-the-terminator:%s#%d" % (short(top), k), a["k"] == "Binary" and a.get("op") == "Add",
+                     "%s calls pstr_tail_idx (line %s) with a location that has not been advanced past the last character: the tail cell of the string is then computed from "
+                     "inside the string" % (short(top), x["ln"]), F.where(top))
+                k += 1
+    R.floor("callers of pstr_tail_idx", n, 4)
